@@ -433,13 +433,9 @@ impl<'de> VariantAccess<'de> for VariantRefDeserializer<'de> {
         V: Visitor<'de>,
     {
         match self.value.map(|v| v.as_ref()) {
-            Some(ValueRef::Array(v)) => {
-                if v.is_empty() {
-                    visitor.visit_unit()
-                } else {
-                    visit_array_ref(v, visitor)
-                }
-            }
+            // also for the empty array: a variant without fields reads an empty sequence,
+            // as it does from text
+            Some(ValueRef::Array(v)) => visit_array_ref(v, visitor),
             Some(other) => Err(serde::de::Error::invalid_type(
                 other.unexpected(),
                 &"tuple variant",
